@@ -52,8 +52,12 @@ def r1_adoption_precedes_start(chk: Check):
     region = g.reachable(tb, avoid=[x for x in g.live if x.kind == "test" and src(x.ast) in ("job.donepath.exists()", "job.donepath.is_file()") and g.dominates(t, x) and not g.dominates(tb, x)])
     waits = [n for n, c in g.call_nodes(lambda c: src(c) == "process.aio_code()") if g.dominates(tb, n)]
     chk.require(len(waits) == 1, chk.fkey(sub, "adoption waits"), "an adopted process must be waited for (process.aio_code())", loc)
-    fin = [n for n in g.live if n.kind == "stmt" and isinstance(n.ast, ast.Assign) and src(n.ast.targets[0]) == "job.state" and isinstance(n.ast.value, ast.IfExp) and g.dominates(tb, n)]
-    ok = len(fin) == 1 and waits and g.dominates(waits[0], fin[0]) and {js.const(fin[0].ast.value.body), js.const(fin[0].ast.value.orelse)} == {"DONE", "ERROR"}
+    # every path from the wait to the end of the adoption branch stores a final state (DONE / ERROR) into job.state
+    fin = [n for n in g.live if n.kind == "stmt" and isinstance(n.ast, ast.Assign) and src(n.ast.targets[0]) == "job.state" and js.const(n.ast.value) in ("DONE", "ERROR") and g.dominates(tb, n)]
+    ok = bool(fin) and bool(waits) and all(g.dominates(waits[0], x) for x in fin) and {js.const(x.ast.value) for x in fin} == {"DONE", "ERROR"}
+    if ok:
+        after = [x for x in g.live if x.kind == "test" and src(x.ast) in ("job.donepath.exists()", "job.donepath.is_file()") and g.dominates(t, x) and not g.dominates(tb, x)]
+        ok = bool(after) and all(g.must_pass(waits[0], a, fin) for a in after)
     chk.require(ok, chk.fkey(sub, "adoption ends final"), "after an adopted process ended the job state must be set to DONE or ERROR", loc)
     inside = [s for s in starts if g.dominates(tb, s)]
     chk.require(not inside, chk.fkey(sub, "adoption never starts"), "the adoption branch starts the job again", loc)
